@@ -1014,11 +1014,15 @@ func (c *Ctx) callWithLiteral(cf, callerFr *Frame, ct *Contract, cb *CallbackSpe
 			if i < len(cb.ParamNames) {
 				pn = cb.ParamNames[i]
 			}
+			// the argument originates in the callee: it is created in the callee's representation and converted
+			// into the literal's (a real-mode callee can only pass finite floats)
+			pt := sig.Params().At(i).Type()
+			ca := c.freshVal("cb$"+pn, pt, cf.Ints, cf.Floats)
 			var a *Val
-			inCaller(func() { a = c.freshVal("cb$"+pn, sig.Params().At(i).Type(), c.Fr.Ints, c.Fr.Floats) })
+			inCaller(func() { a = c.modeConv(ca, pt, cf.Ints, cf.Floats, callerFr.Ints, callerFr.Floats) })
 			args = append(args, a)
 			if pn != "" {
-				env.vars[pn] = c.modeConvFrom(callerFr, a, sig.Params().At(i).Type(), callerFr.Ints, callerFr.Floats, cf.Ints, cf.Floats)
+				env.vars[pn] = ca
 			}
 		}
 		savedBound := c.bound
